@@ -17,6 +17,7 @@ type Exec struct {
 	Diverged string
 	Panics   []interface{}
 	Obs      interface{} // scenario-specific observation (set by the scenario's check function)
+	Skipped  bool        // set when the execution diverged from its recorded prefix: the scenario's check must only tear down
 }
 
 // Scenario builds a fresh instance, declares its threads on s, and returns a function that is called after the run to
@@ -33,6 +34,10 @@ type Stats struct {
 	Preemptions  map[int]int64 // executions by number of preemptions
 	Pruned       int64
 	FirstChoices [][]int
+	// replay divergences (same prefix, different execution): retried up to 5 times, then the subtree is skipped
+	DivergenceRetries int64
+	DivergentSkipped  int64
+	LastDivergence    string
 }
 
 type Explorer struct {
@@ -55,14 +60,22 @@ func (e *Explorer) run(prefix []int) *Exec {
 	panics := s.Run()
 	x := &Exec{Points: s.Points, Deadlock: s.Deadlock, Diverged: s.Diverged, Panics: panics}
 	if s.Overflow {
-		x.Diverged = "point limit exceeded (livelock?)"
+		panic("schedule explorer: point limit exceeded (livelock?)")
 	}
 	x.Choices = make([]int, len(s.Points))
 	for i, p := range s.Points {
 		x.Choices[i] = p.Choice
 	}
 	if x.Diverged != "" {
-		panic("schedule explorer: " + x.Diverged)
+		// the same choice prefix did not reproduce the execution it was recorded from: nondeterminism the harness does
+		// not own. Tear the instance down without judging it; the caller retries and, failing that, skips the subtree
+		// and reports the exploration as incomplete (never as a verdict about the property).
+		func() {
+			defer func() { recover() }()
+			x.Skipped = true
+			after(x)
+		}()
+		return x
 	}
 	after(x)
 	e.Stats.Executions++
@@ -105,6 +118,15 @@ func (e *Explorer) explore(prefix []int, depth int) {
 		return
 	}
 	x := e.run(prefix)
+	for try := 0; x.Diverged != "" && try < 5; try++ {
+		e.Stats.DivergenceRetries++
+		x = e.run(prefix)
+	}
+	if x.Diverged != "" {
+		e.Stats.DivergentSkipped++
+		e.Stats.LastDivergence = fmt.Sprintf("prefix %v: %s", prefix, x.Diverged)
+		return
+	}
 	e.Stats.Preemptions[preemptionsBefore(x, len(x.Points))]++
 	for i := len(prefix); i < len(x.Points); i++ {
 		p := x.Points[i]
@@ -142,6 +164,9 @@ func (e *Explorer) explore(prefix []int, depth int) {
 func (e *Explorer) Replay(choices []int) (*Exec, error) {
 	a := e.run(choices)
 	b := e.run(choices)
+	if a.Diverged != "" || b.Diverged != "" {
+		return a, fmt.Errorf("replay diverged from the recorded schedule: %s %s", a.Diverged, b.Diverged)
+	}
 	if len(a.Points) != len(b.Points) {
 		return a, fmt.Errorf("replay nondeterminism: %d vs %d points", len(a.Points), len(b.Points))
 	}
@@ -151,4 +176,80 @@ func (e *Explorer) Replay(choices []int) (*Exec, error) {
 		}
 	}
 	return a, nil
+}
+
+// Probe is a determinism self-test: it runs the root execution and every level-1 alternative `runs` times each and
+// reports the first pair of executions of the same choice prefix whose point sequences differ ("" if none).
+func (e *Explorer) Probe(runs int) string {
+	sig := func(x *Exec) []string {
+		var out []string
+		objs := map[int64]int{} // mutex ids are process-global: number them by first appearance within the run
+		for _, p := range x.Points {
+			if _, ok := objs[p.Obj]; !ok {
+				objs[p.Obj] = len(objs)
+			}
+			out = append(out, fmt.Sprintf("t%d %s obj=%d en=%v", p.Thread, p.Kind, objs[p.Obj], p.Enabled))
+		}
+		return out
+	}
+	cmp := func(prefix []int) string {
+		var first []string
+		for r := 0; r < runs; r++ {
+			s := vsync.NewSched(prefix)
+			after := e.Scenario(s)
+			panics := s.Run()
+			x := &Exec{Points: s.Points, Deadlock: s.Deadlock, Diverged: s.Diverged, Panics: panics}
+			x.Choices = make([]int, len(s.Points))
+			for i, p := range s.Points {
+				x.Choices[i] = p.Choice
+			}
+			g := sig(x)
+			div := x.Diverged
+			func() {
+				defer func() { recover() }()
+				after(x)
+			}()
+			if div != "" {
+				return fmt.Sprintf("prefix %v run %d: %s", prefix, r, div)
+			}
+			if first == nil {
+				first = g
+				continue
+			}
+			for i := 0; i < len(first) || i < len(g); i++ {
+				a, b := "<end>", "<end>"
+				if i < len(first) {
+					a = first[i]
+				}
+				if i < len(g) {
+					b = g[i]
+				}
+				if a != b {
+					lo := i - 6
+					if lo < 0 {
+						lo = 0
+					}
+					ctx := ""
+					for j := lo; j < i; j++ {
+						ctx += fmt.Sprintf("\n   %d: %s", j, first[j])
+					}
+					return fmt.Sprintf("prefix %v: run 0 and run %d differ at point %d:\n  run0: %s\n  run%d: %s\n  common context:%s", prefix, r, i, a, r, b, ctx)
+				}
+			}
+		}
+		return ""
+	}
+	if d := cmp(nil); d != "" {
+		return d
+	}
+	root := e.run(nil)
+	for i, p := range root.Points {
+		for alt := 1; alt < len(p.Enabled); alt++ {
+			np := append(append([]int{}, root.Choices[:i]...), alt)
+			if d := cmp(np); d != "" {
+				return d
+			}
+		}
+	}
+	return ""
 }
